@@ -176,3 +176,10 @@ func (p *PRoot) Parse(lex *lexer.PeekingLexer) error {
 func BuildPRoot(g *Grammar) (*participle.Parser[PRoot], error) {
 	return participle.Build[PRoot](g.Options(nil)...)
 }
+
+// BuildUnionRoot calls participle.Build with the root union itself as the grammar type (Build[U0](Union[U0](...)))
+// and returns its error.
+func BuildUnionRoot(g *Grammar) error {
+	_, err := participle.Build[U0](g.Options(g.Types())...)
+	return err
+}
